@@ -2,6 +2,7 @@
    pos/loop_stack machine (LoopMachine.v).  The machine state is `res song`: a panic / unsupported
    construct / exhausted fuel halts it (like break_flag), so errors propagate to the result. *)
 From Sakura.Model Require Import Base Cursor Length Event Song Token LoopMachine LexCore Tie.
+From Sakura.Model Require Cmd.   (* the event shapes of the command arms (property C15): used qualified *)
 From Sakura.Gen Require Import Messages.
 From Coq Require Import String.
 Open Scope string_scope.
@@ -152,6 +153,18 @@ Definition ls_of_song (s : song) : lexstate := mkLex (s_timebase s) (s_logs s) (
 Definition song_with_ls (s : song) (ls : lexstate) : song :=
   s_set_rhythm (s_set_vars (s_set_logs (s_set_timebase s (lx_timebase ls)) (lx_logs ls)) (lx_vars ls)) (lx_rhythm ls).
 
+(* song.add_event for the events of one command arm (shapes: model/Cmd.v), at the pointer / channel of the current track *)
+Definition add_events (s : song) (f : Z -> Z -> list event) : song :=
+  let trk := cur_track s in
+  upd_cur s (fun t => tr_push_events t (f (tr_timepos trk) (tr_channel trk))).
+
+(* exec_cc_rpn_nrpn_direct *)
+Definition exec_rpn_direct (s : song) (nrpn : bool) (args : list Z) : song :=
+  match args with
+  | [_; _; _] => add_events s (fun tp ch => if nrpn then Cmd.cmd_nrpn_direct tp ch args else Cmd.cmd_rpn_direct tp ch args)
+  | _ => runtime_error s (zs "RPN/NRPN needs 3 arguments")
+  end.
+
 Section Exec.
   (* exec() of the children of Sub / Div: supplied with one unit less of nesting fuel *)
   Variable exec_children : list tok -> res song -> res song.
@@ -225,6 +238,11 @@ Section Exec.
         exec_children toks (Ok (song_with_ls s1 ls'))
     | TVAdd v => Ok (s_set_adds s v (s_q_add s))
     | TQAdd v => Ok (s_set_adds s (s_v_add s) v)
+    | TCC no v => Ok (add_events s (fun tp ch => Cmd.cmd_cc tp ch no v))
+    | TPitchBend big v => Ok (add_events s (fun tp ch => Cmd.cmd_pitch_bend tp ch (negb (big =? 0)) v))
+    | TRpnCmd nrpn msb lsb v =>
+        Ok (add_events s (fun tp ch => if nrpn then Cmd.cmd_nrpn tp ch msb lsb v else Cmd.cmd_rpn tp ch msb lsb v))
+    | TRpnDirect nrpn args => Ok (exec_rpn_direct s nrpn args)
     end.
 
   Definition step_tok (t : tok) (s : res song) : res song := do sg <- s; step_song t sg.
